@@ -625,6 +625,10 @@ func C06(tier string) int {
 			run.Violate(v.Key, v.What, map[string]any{"check": "C06", "shape": o.Shape, "choices": v.Choices})
 		}
 	}
+	ucells, uapproved := c06Unwritable(run, nil)
+	if run.HarnessErr != nil {
+		return run.Finish()
+	}
 	var sl, fl []string
 	for s := range sites {
 		sl = append(sl, s)
@@ -646,6 +650,7 @@ func C06(tier string) int {
 		"sites_seen":          sl,
 		"site_fault_pairs":    fl,
 		"outcomes":            outcomes,
+		"unwritable_record":   map[string]any{"cells": ucells, "approved": uapproved, "rule": "rules called directly with a key the store refuses (65001, 70000, 2^20 bytes) at every position of attestation batches of 1..3 and on the single attestation and proposal paths: APPROVED implies the record is in the store"},
 	}
 	run.Assumptions = []string{"rules results outside the four declared constants and result lists longer than the request are not in the fault menu (no in-tree implementation can produce them)", "GOMAXPROCS=1 in explorer processes (one Scatter worker, deterministic call order)"}
 	return run.Finish()
@@ -724,12 +729,25 @@ func init() {
 	Registry["C06"] = C06
 	Replayers["C06"] = func(raw json.RawMessage) int {
 		var rp struct {
-			Shape   C06Shape `json:"shape"`
-			Choices []int    `json:"choices"`
+			Shape      C06Shape           `json:"shape"`
+			Choices    []int              `json:"choices"`
+			Unwritable *c06UnwritableCase `json:"unwritable"`
 		}
 		if err := json.Unmarshal(raw, &rp); err != nil {
 			fmt.Println(err)
 			return 2
+		}
+		if rp.Unwritable != nil {
+			run := ev.NewRun("C06", "replay", "fault_enumeration")
+			c06Unwritable(run, rp.Unwritable)
+			for _, v := range run.Violations() {
+				fmt.Println("  VIOLATED:", v.What)
+			}
+			if len(run.Violations()) > 0 {
+				return 1
+			}
+			fmt.Println("  no violation on replay")
+			return 0
 		}
 		runtime.GOMAXPROCS(1)
 		if rp.Shape.Trace {
